@@ -129,7 +129,7 @@ def decide(prop, tier='quick', rlimit=None):
         for i in infra:
             print("  " + i.replace('\n', '\n    '))
         rc = 2
-    if violations and rc != 2:
+    if violations:
         os.makedirs(REPLAY_OUT, exist_ok=True)
         seenv = set()
         for v in violations:
